@@ -279,3 +279,121 @@ Proof.
            cbw cbh mh pl pr pt pb bl br bt bb w mnw mxw h mnh mxh).
 Qed.
 Print Assumptions C05_source_resolve_percentages_box_sizing.
+
+(* ---- source: the functions that a call of a @handle_min_max_width / @handle_min_max_height function executes: the
+   inner `wrapper` of the two decorators of layout/min_max.py, regenerated on every run (gen/GenMinMax.v).  The
+   decorated function is ANY oracle F (given the attributes of the box and the tuple of the other arguments it raises,
+   or answers the returned value and the state of the box and of the arguments after the call); getattr is the
+   builtin.  The regenerated bodies compute the hand model wrap_width / wrap_height (model/C05MinMaxWrap.v): the
+   first entry; when size > max: size := max, margins (and position_x) as at the first entry, re-entry; the same when
+   size < min; nothing is clamped while the height is 'auto'. *)
+Require WV.gen.GenMinMax WV.model.C05MinMaxWrap WV.proofs.C05_minmax_wrap WV.proofs.C05_gen_minmax.
+Theorem C05_source_min_max_width_wrapper (O : qops) (HO : ops_ok O) (F : C05MinMaxWrap.oracle)
+  (HF : forall f a, ocall O "function" [VObj f; VList a] = C05MinMaxWrap.enc (F f a))
+  (HG : forall f n d, ocall O "%getattr" [VObj f; VStr n; d] = C05MinMaxWrap.getattr_sem f n d)
+  (A : Type) (obs : env -> option val -> A) (kerr : string -> A) f0 a0 :
+  run O GenMinMax.min_max_width_wrapper_body [("box", VObj f0); ("args", VList a0)] obs kerr =
+  match C05MinMaxWrap.wrap_width F f0 a0 with
+  | inl m => kerr m
+  | inr (r, f, a) =>
+      obs [("box", VObj f); ("args", VList a);
+           ("computed_margins", VList [lookup "margin_left" f0; lookup "margin_right" f0]);
+           ("position_x", C05MinMaxWrap.getattr_sem f0 "position_x" VNone); ("result", r)] (Some r)
+  end.
+Proof. exact (C05_gen_minmax.gen_wrap_width O HO F HF HG obs kerr f0 a0). Qed.
+Print Assumptions C05_source_min_max_width_wrapper.
+
+Theorem C05_source_min_max_height_wrapper (O : qops) (HO : ops_ok O) (F : C05MinMaxWrap.oracle)
+  (HF : forall f a, ocall O "function" [VObj f; VList a] = C05MinMaxWrap.enc (F f a))
+  (A : Type) (obs : env -> option val -> A) (kerr : string -> A) f0 a0 :
+  run O GenMinMax.min_max_height_wrapper_body [("box", VObj f0); ("args", VList a0)] obs kerr =
+  match C05MinMaxWrap.wrap_height F f0 a0 with
+  | inl m => kerr m
+  | inr (r, f, a) =>
+      obs [("box", VObj f); ("args", VList a);
+           ("computed_margins", VList [lookup "margin_top" f0; lookup "margin_bottom" f0]); ("result", r)] (Some r)
+  end.
+Proof. exact (C05_gen_minmax.gen_wrap_height O HO F HF obs kerr f0 a0). Qed.
+Print Assumptions C05_source_min_max_height_wrapper.
+
+(* the same with the two calls interpreted inside the operations record: no hypothesis is left *)
+Theorem C05_source_min_max_width_wrapper_closed (F : C05MinMaxWrap.oracle) (A : Type) (obs : env -> option val -> A)
+        (kerr : string -> A) f0 a0 :
+  run (with_calls real_ops (C05MinMaxWrap.wrap_calls F)) GenMinMax.min_max_width_wrapper_body
+      [("box", VObj f0); ("args", VList a0)] obs kerr =
+  match C05MinMaxWrap.wrap_width F f0 a0 with
+  | inl m => kerr m
+  | inr (r, f, a) => obs (C05_gen_minmax.width_final f0 f a r) (Some r)
+  end.
+Proof. exact (C05_gen_minmax.gen_wrap_width_closed F obs kerr f0 a0). Qed.
+Print Assumptions C05_source_min_max_width_wrapper_closed.
+
+(* the min/max clause about the source: around any function that keeps a numeric width it is given and leaves the
+   bounds alone, the regenerated wrapper returns with min <= width, width <= max when min <= max, width == min
+   otherwise (min wins); it raises only what the function raises.  The same for the height unless it stays 'auto'. *)
+Theorem C05_source_min_max_width_clamped (O : qops) (HO : ops_ok O) (F : C05MinMaxWrap.oracle)
+  (HF : forall f a, ocall O "function" [VObj f; VList a] = C05MinMaxWrap.enc (F f a))
+  (HG : forall f n d, ocall O "%getattr" [VObj f; VStr n; d] = C05MinMaxWrap.getattr_sem f n d) f0 a0 (mn mx : Q) :
+  (forall f a r f' a', F f a = inr (r, f', a') ->
+     lookup "min_width" f' = lookup "min_width" f /\ lookup "max_width" f' = lookup "max_width" f /\
+     (forall w, lookup "width" f = VNum w -> exists d, lookup "width" f' = VNum d /\ d == w)) ->
+  (forall f a r f' a', F f a = inr (r, f', a') -> exists d, lookup "width" f' = VNum d) ->
+  lookup "min_width" f0 = VNum mn -> lookup "max_width" f0 = VNum mx ->
+  run O GenMinMax.min_max_width_wrapper_body [("box", VObj f0); ("args", VList a0)]
+      (fun rho _ => exists d, lookup "width" (C05_gen_minmax.box_of rho) = VNum d /\
+                              mn <= d /\ (mn <= mx -> d <= mx) /\ (~ mn <= mx -> d == mn))
+      (fun m => exists f a, F f a = inl m).
+Proof. exact (C05_gen_minmax.source_min_max_width O HO F HF HG f0 a0 mn mx). Qed.
+Print Assumptions C05_source_min_max_width_clamped.
+
+Theorem C05_source_min_max_height_clamped (O : qops) (HO : ops_ok O) (F : C05MinMaxWrap.oracle)
+  (HF : forall f a, ocall O "function" [VObj f; VList a] = C05MinMaxWrap.enc (F f a)) f0 a0 (mn mx : Q) :
+  (forall f a r f' a', F f a = inr (r, f', a') ->
+     lookup "min_height" f' = lookup "min_height" f /\ lookup "max_height" f' = lookup "max_height" f /\
+     (forall w, lookup "height" f = VNum w -> exists d, lookup "height" f' = VNum d /\ d == w)) ->
+  (forall f a r f' a', F f a = inr (r, f', a') ->
+     lookup "height" f' = VStr "auto" \/ exists d, lookup "height" f' = VNum d) ->
+  lookup "min_height" f0 = VNum mn -> lookup "max_height" f0 = VNum mx ->
+  run O GenMinMax.min_max_height_wrapper_body [("box", VObj f0); ("args", VList a0)]
+      (fun rho _ => lookup "height" (C05_gen_minmax.box_of rho) = VStr "auto" \/
+                    exists d, lookup "height" (C05_gen_minmax.box_of rho) = VNum d /\
+                              mn <= d /\ (mn <= mx -> d <= mx) /\ (~ mn <= mx -> d == mn))
+      (fun m => exists f a, F f a = inl m).
+Proof. exact (C05_gen_minmax.source_min_max_height O HO F HF f0 a0 mn mx). Qed.
+Print Assumptions C05_source_min_max_height_clamped.
+
+(* whatever every answer of the decorated function satisfies (the width equation, say), what the regenerated wrapper
+   returns satisfies: its answer is the answer of one of its calls *)
+Theorem C05_source_min_max_width_preserves (O : qops) (HO : ops_ok O) (F : C05MinMaxWrap.oracle)
+  (HF : forall f a, ocall O "function" [VObj f; VList a] = C05MinMaxWrap.enc (F f a))
+  (HG : forall f n d, ocall O "%getattr" [VObj f; VStr n; d] = C05MinMaxWrap.getattr_sem f n d)
+  (P : C05MinMaxWrap.answer -> Prop) f0 a0 :
+  (forall f a c, F f a = inr c -> P c) ->
+  run O GenMinMax.min_max_width_wrapper_body [("box", VObj f0); ("args", VList a0)]
+      (fun rho r => exists v a, r = Some v /\ lookup "args" rho = VList a /\ P (v, C05_gen_minmax.box_of rho, a))
+      (fun _ => True).
+Proof. exact (C05_gen_minmax.source_min_max_width_preserves O HO F HF HG P f0 a0). Qed.
+Print Assumptions C05_source_min_max_width_preserves.
+
+(* the calls the wrappers make (model, equal to the source by the theorems above): every re-entry starts from the
+   margins of the first entry - and from its position_x when it has one that is not None -, and the answer of the
+   wrapper is the answer of one of the calls *)
+Theorem C05_min_max_width_reentry_restored (F : C05MinMaxWrap.oracle) f0 a0 :
+  (forall fin ain, In (fin, ain) (fst (C05MinMaxWrap.wrap_width_full F f0 a0)) ->
+     (fin, ain) = (f0, a0) \/
+     (lookup "margin_left" fin = lookup "margin_left" f0 /\ lookup "margin_right" fin = lookup "margin_right" f0 /\
+      (C05MinMaxWrap.getattr_sem f0 "position_x" VNone <> VNone ->
+       lookup "position_x" fin = C05MinMaxWrap.getattr_sem f0 "position_x" VNone))) /\
+  (forall c, C05MinMaxWrap.wrap_width F f0 a0 = inr c ->
+     exists fin ain, In (fin, ain) (fst (C05MinMaxWrap.wrap_width_full F f0 a0)) /\ F fin ain = inr c).
+Proof. exact (C05_minmax_wrap.wrap_width_calls F f0 a0). Qed.
+Print Assumptions C05_min_max_width_reentry_restored.
+
+Theorem C05_min_max_height_reentry_restored (F : C05MinMaxWrap.oracle) f0 a0 :
+  (forall fin ain, In (fin, ain) (fst (C05MinMaxWrap.wrap_height_full F f0 a0)) ->
+     (fin, ain) = (f0, a0) \/
+     (lookup "margin_top" fin = lookup "margin_top" f0 /\ lookup "margin_bottom" fin = lookup "margin_bottom" f0 /\ True)) /\
+  (forall c, C05MinMaxWrap.wrap_height F f0 a0 = inr c ->
+     exists fin ain, In (fin, ain) (fst (C05MinMaxWrap.wrap_height_full F f0 a0)) /\ F fin ain = inr c).
+Proof. exact (C05_minmax_wrap.wrap_height_calls F f0 a0). Qed.
+Print Assumptions C05_min_max_height_reentry_restored.
